@@ -166,7 +166,48 @@ def gen_cases(rng, tier):
             cases.append({"ops": ops, "fork": True, "meta": meta, "ctx": full.dump(),
                           "cls_after": cls_after, "nsetup": 0,
                           "tags": ["order:" + label]})
+    for _ in range(12 if tier == "thorough" else 4):
+        cases.append(gen_price_case(rng))
     return cases
+
+
+def gen_price_case(rng):
+    """a money-per-X type (no reference unit: its units are not scaled against
+    each other) with units for several currencies over the SAME quantity
+    unit; the same product / quotient evaluated for one currency after the
+    other, in both operand orders, repeated"""
+    from props import C10, _money
+    import siref
+    scale = {sy: k for _, sy, k in siref.table()}
+    codes = rng.sample(C10.CODES, 3)
+    ops = [["load_predefined"]] + _money.setup(C10.CODES)
+    cls, xunits = rng.choice(sorted(C10.PER.items()))
+    pname = "PricePer" + cls
+    ops.append(["decl_class", pname, f"c:Money^1;c:{cls}^-1", "-", "0", "-"])
+    xu = rng.choice(xunits)
+    for cur in codes:
+        ops.append(["derive_unit", pname, f"{cur},{xu}", "-"])
+    nsetup = len(ops)
+    expect = []
+    order = [rng.choice(codes) for _ in range(8)] + codes
+    for cur in order:
+        a = Fraction(rng.randint(1, 9999), rng.choice([1, 4, 100]))
+        xv = rng.choice(xunits)
+        b = Fraction(rng.randint(1, 999), rng.choice([1, 2, 10]))
+        frac = _money.frac_of(cur)
+        from oracles import round_ref
+        want = round_ref(a * b * scale[xv] / scale[xu] / frac, MODE) * frac
+        exp = f"ok qty {rat(want)}@{cur}:Money"
+        o = ["q_bin", "mul", f"{rat(a)}@{cur}/{xu}", f"{rat(b)}@{xv}", MODE]
+        if rng.random() < .4:
+            o = ["q_bin", "mul", o[3], o[2], MODE]
+        ops.append(o); expect.append(exp)
+        if rng.random() < .5:
+            # money / quantity -> the price unit of that currency
+            m = round_ref(a / frac, MODE) * frac
+            o = ["q_bin", "div", f"{rat(m)}@{cur}", f"{rat(b)}@{xu}", MODE]
+            ops.append(o); expect.append(f"ok qty {rat(m / b)}@{cur}/{xu}:{pname}")
+    return {"ops": ops, "fork": True, "nsetup": nsetup, "expect": expect, "tags": ["prices"]}
 
 
 def search_cases(rng, focus, broken):
@@ -174,6 +215,15 @@ def search_cases(rng, focus, broken):
 
 
 def oracle(case, impl):
+    if "expect" in case:
+        fails = []
+        for o, out in zip(case["ops"][:case["nsetup"]], impl):
+            if not out.startswith("ok"):
+                fails.append({"site": "setup", "msg": f"{o} -> {out}"})
+        for o, out, exp in zip(case["ops"][case["nsetup"]:], impl[case["nsetup"]:], case["expect"]):
+            if out != exp:
+                fails.append({"site": "hist:price-units", "msg": f"{o} -> {out}, expected {exp}"})
+        return fails
     full = _qty.Ctx.load(case["ctx"], [])
     fails = []
     last = {}
@@ -199,6 +249,9 @@ def oracle(case, impl):
 
 def nontrivial_key(case, impl):
     keys = set()
+    if "expect" in case:
+        return {("price", o[1], o[2].rpartition("@")[2], o[3].rpartition("@")[2])
+                for o in case["ops"][case["nsetup"]:]}
     for o, m in zip(case["ops"], case["meta"]):
         if m[0] in ("repeat", "again"):
             keys.add((m[0],) + tuple(x.rpartition("@")[2] if "@" in x else x for x in o[:4]))
